@@ -170,6 +170,33 @@ fn gen(seed: u64, idx: u64, t: Tier) -> J {
 		}
 		s.push_str(tail);
 		s.into_bytes()
+	} else if idx % 13 == 4 {
+		// Real MessagePack that starts like text: an array 16 / map 16 whose length field
+		// begins with a UTF-8 continuation byte (32768-49151 entries), printable one-byte
+		// values first, anything afterwards.
+		family = "msgpack_text_like";
+		let map = r.chance(1, 3);
+		let n = r.range(0x8000, 0xbfff);
+		let mut b = vec![if map { 0xde } else { 0xdc }, (n >> 8) as u8, n as u8];
+		let ascii_head = r.range(0, 200);
+		let values = if map { 2 * n } else { n };
+		for i in 0..values {
+			if i < ascii_head || r.chance(9, 10) {
+				b.push(0x20 + r.below(0x5f) as u8);
+			} else {
+				match r.below(4) {
+					0 => b.push(0xc0),
+					1 => b.extend_from_slice(&[0xcc, r.next() as u8]),
+					2 => b.extend_from_slice(&[0xa2, b'h', b'i']),
+					_ => b.push(0xc3),
+				}
+			}
+		}
+		if r.chance(1, 4) {
+			let cut = r.range(0, b.len());
+			b.truncate(cut);
+		}
+		b
 	} else if idx % 11 == 7 {
 		family = "boundary_utf8";
 		let fm = *r.pick(&[Fmt::Json, Fmt::Yaml, Fmt::Toml, Fmt::Toml]);
@@ -279,6 +306,7 @@ fn eval_lib(case: &J) -> Eval {
 	match sc.param_s("family").unwrap_or("") {
 		"msgpack_marker_first" => ev.count("lib.msgpack_marker_first", 1),
 		"u0700_first" => ev.count("lib.u0700_first", 1),
+		"msgpack_text_like" => ev.count("lib.msgpack_text_like", 1),
 		"truncated" => ev.count("lib.truncated", 1),
 		"near_2mib" => ev.count("lib.near_2mib_toml", 1),
 		"boundary_utf8" => ev.count("lib.boundary_utf8", 1),
